@@ -42,7 +42,11 @@ RULE = ("generated directories: 1-3 species present in a start-resolution system
         "resolutions), each with its start topology / end topology / end coordinates, any of which may be missing "
         "(D11: start topology without end topology), a species that is not in the system, distractors (valid unrelated "
         ".itp/.gro, force-field include and empty .itp, other extensions, upper-case extensions, the reference file "
-        "itself, duplicated listing entries), a random subset of species given explicitly, a random exclusion list. "
+        "itself, duplicated listing entries), a random subset of species given explicitly, a random exclusion list; "
+        "'ambiguous' directories (ON by default): candidates in sub-folders with equal base names (cg/X.itp, aa/X.itp, old/X.itp), "
+        "two end topologies with the species' name, two pairing end coordinate files, a stale mapped_<name> output, a second "
+        "start topology, the same file listed under absolute and relative spellings - there K compares the exact winner "
+        "(first in sorted full-path order) and S demands determinism and membership only. "
         "Every permutation of the candidate list when it has <= 5 (quick) / <= 6 (thorough) files, sampled otherwise; "
         "hash seeds in subprocesses.  A case is non-trivial when its (directory descriptor, order) is distinct and the "
         "directory contains at least one discoverable species.")
@@ -97,6 +101,8 @@ def natoms(residues):
 
 def make_descriptor(rs, profile="full", for_mapping=False):
     """profile: 'small' (few candidate files, exhaustive permutations), 'full', 'samesig'."""
+    if profile == "ambig":
+        return make_ambiguous(rs)
     nsp = 1 if profile == "small" else int(rs.randint(2, 4))
     species = []
     for k in range(nsp):
@@ -199,7 +205,90 @@ def make_descriptor(rs, profile="full", for_mapping=False):
             "known": known, "exclude": exclude, "geom_seed": int(rs.randint(0, 2 ** 31 - 1)), "profile": profile}
 
 
+def make_ambiguous(rs):
+    """'ambiguous directory': candidates in sub-folders with EQUAL base names, more than one candidate for a role
+    (second end topology with the species' name, second end coordinate file that pairs, a stale mapped_<name> output,
+    the same file listed under an absolute and a relative spelling, a second start topology).  Which candidate wins is
+    not prescribed by the property; that the answer is the same for every order and hash seed is."""
+    nsp = int(rs.randint(1, 3))
+    species = [make_species(rs, k, same_sig=(rs.randint(0, 6) == 0)) for k in range(nsp)]
+    kinds = ["two_aa_top", "two_coor", "stale", "spelling", "two_cg"]
+    chosen = {kinds[int(i)] for i in rs.permutation(len(kinds))[:int(rs.randint(1, 4))]}
+    layout = int(rs.randint(0, 3))      # 0: cg/ aa/ old/ with equal base names, 1: flat, 2: nested deeper
+    def fn(folder, n, ext):
+        if layout == 0:
+            return "%s/%s.%s" % (folder, n, ext)
+        if layout == 1:
+            return "%s_%s.%s" % (n, folder, ext)
+        return "proj/%s/files/%s.%s" % (folder, n, ext)
+    files, blocks = [], []
+    for sp in species:
+        n = sp["name"]
+        cnt = 1 if ("stale" in chosen and not sp["same_sig"]) else int(rs.randint(2 if sp["same_sig"] else 1, 4))
+        blocks.append([n, cnt])
+        files.append({"name": fn("cg", n, "itp"), "kind": "top", "mol": n, "res": "cg"})
+        files.append({"name": fn("aa", n, "itp"), "kind": "top", "mol": n, "res": "aa"})
+        files.append({"name": fn("aa", n, "gro"), "kind": "coor", "mols": [[n, "aa"]]})
+    victim = species[int(rs.randint(0, nsp))]["name"]
+    if "two_aa_top" in chosen:
+        files.append({"name": fn("old", victim, "itp"), "kind": "top", "mol": victim, "res": "aa"})
+    if "two_coor" in chosen:
+        files.append({"name": fn("old", victim, "gro"), "kind": "coor", "mols": [[victim, "aa"]]})
+    if "two_cg" in chosen:
+        files.append({"name": fn("cg_old", victim, "itp"), "kind": "top", "mol": victim, "res": "cg"})
+    if rs.randint(0, 2):
+        blocks.append(["SOL", int(rs.randint(1, 3))])
+    blocks = [blocks[int(i)] for i in rs.permutation(len(blocks))]
+    ref_name = ["system.gro", "conf/system.gro", "zz.gro"][int(rs.randint(0, 3))]
+    if "stale" in chosen:
+        mols = []
+        for name, cnt in blocks:
+            mols += [[name, "aa"]] * cnt
+        files.append({"name": os.path.join(os.path.dirname(ref_name), "mapped_" + os.path.basename(ref_name)),
+                      "kind": "coor", "mols": mols})
+    if rs.randint(0, 2):
+        files.append({"name": "ff/forcefield.itp", "kind": "raw", "text": "[ defaults ]\n; nbfunc comb-rule\n  1  2\n"})
+    if rs.randint(0, 2):
+        files.append({"name": "notes.txt", "kind": "raw", "text": "not a simulation file\n"})
+    files.append({"name": ref_name, "kind": "ref"})
+    listing = [f["name"] for f in files if f["kind"] != "ref"]
+    if rs.randint(0, 2):
+        listing.append(ref_name)
+    if "spelling" in chosen:
+        # some files listed a second time under another spelling of the same path
+        extra = [listing[int(i)] for i in rs.permutation(len(listing))[:int(rs.randint(1, 3))]]
+        listing += [["REL:", "DOT:"][int(rs.randint(0, 2))] + x for x in extra]
+    elif rs.randint(0, 3) == 0:
+        listing = [["REL:", "DOT:"][int(rs.randint(0, 2))] + x for x in listing]      # everything relative
+    listing = [listing[int(i)] for i in rs.permutation(len(listing))]
+    return {"species": species, "in_system": [sp["name"] for sp in species], "blocks": [[b[0], int(b[1])] for b in blocks],
+            "files": files, "ref": ref_name, "auto": listing, "known": [], "exclude": None,
+            "geom_seed": int(rs.randint(0, 2 ** 31 - 1)), "profile": "ambig", "ambiguities": sorted(chosen)}
+
+
 # ------------------------------------------------------------------- descriptor -> files
+def entry_name(e):
+    """an entry of desc['auto'] is a name relative to the directory, optionally prefixed by REL: (pass it as a relative
+    path, the process runs in the directory) or DOT: (./name); without prefix it is passed as an absolute path"""
+    return e[4:] if e[:4] in ("REL:", "DOT:") else e
+
+
+def spell(d, e):
+    if e.startswith("REL:"):
+        return e[4:]
+    if e.startswith("DOT:"):
+        return "./" + e[4:]
+    return os.path.join(d, e)
+
+
+def short(d, x):
+    return os.path.relpath(x, d) if os.path.isabs(x) else x
+
+
+def needs_cwd(desc):
+    return any(e[:4] in ("REL:", "DOT:") for e in desc["auto"])
+
+
 def species_of(desc, name):
     for sp in desc["species"]:
         if sp["name"] == name:
@@ -235,6 +324,7 @@ def materialize(desc, d):
     rs = np.random.RandomState(desc["geom_seed"])
     for f in desc["files"]:
         path = os.path.join(d, f["name"])
+        os.makedirs(os.path.dirname(path), exist_ok=True)
         if f["kind"] == "raw":
             with open(path, "w") as fh:
                 fh.write(f["text"])
@@ -291,84 +381,93 @@ def model_tables(desc, d):
             kinds[key] = len(kinds)
             kind_names[kinds[key]] = names
     stream = [kinds[(rn, len(names))] for rn, names in ref_res]
+    # every spelling under which a file can reach the code: absolute, and the ones used in the listing
+    spellings = {}
+    for f in desc["files"]:
+        spellings.setdefault(f["name"], []).append(os.path.join(d, f["name"]))
+    for e in desc["auto"]:
+        sp_ = spell(d, e)
+        if entry_name(e) in spellings and sp_ not in spellings[entry_name(e)]:
+            spellings[entry_name(e)].append(sp_)
     tbl, tops = [], {}
     for f in desc["files"]:
-        p = os.path.join(d, f["name"])
-        if f["kind"] == "top":
-            sp = species_of(desc, f["mol"])
-            res = [(r[0], tuple(r[1])) for r in sp[f["res"]]]
-            sig = [kinds.get((rn, len(names))) for rn, names in res]
-            ok = None not in sig and all(kind_names[k] == names for k, (rn, names) in zip(sig, res))
-            tbl.append("(%s, Build_topdata (Some %s) %s %s)" % (
-                coq_str(p), coq_str(sp["name"]),
-                "None" if None in sig else "(Some %s)" % coq_list(["%d" % k for k in sig]),
-                "true" if ok else "false"))
-            tops[p] = res
-        elif f["kind"] == "raw":
-            tbl.append("(%s, Build_topdata None None false)" % coq_str(p))
+        for p in spellings[f["name"]]:
+            if f["kind"] == "top":
+                sp = species_of(desc, f["mol"])
+                res = [(r[0], tuple(r[1])) for r in sp[f["res"]]]
+                sig = [kinds.get((rn, len(names))) for rn, names in res]
+                ok = None not in sig and all(kind_names[k] == names for k, (rn, names) in zip(sig, res))
+                tbl.append("(%s, Build_topdata (Some %s) %s %s)" % (
+                    coq_str(p), coq_str(sp["name"]),
+                    "None" if None in sig else "(Some %s)" % coq_list(["%d" % k for k in sig]),
+                    "true" if ok else "false"))
+                tops[p] = res
+            elif f["kind"] == "raw":
+                tbl.append("(%s, Build_topdata None None false)" % coq_str(p))
     pairs = []
     for f in desc["files"]:
         if f["kind"] in ("coor", "ref"):
             st = residues_of_file(desc, f)
             for tp, res in tops.items():
                 if count_instances(st, res) == 1:
-                    pairs.append("(%s, %s)" % (coq_str(os.path.join(d, f["name"])), coq_str(tp)))
+                    for cp in spellings[f["name"]]:
+                        pairs.append("(%s, %s)" % (coq_str(cp), coq_str(tp)))
     return (coq_list(["Some %d" % k for k in stream]), coq_list(tbl), coq_list(pairs))
 
 
 # ------------------------------------------------------------------- ground truth for the oracle (by role)
 def expected_discovery(desc, d, known):
-    """{name: {'tops': set of acceptable {top_CG, top_AA} assignments, ...}} from the roles of the files.
-    Returns dict name -> list of acceptable inner dicts."""
-    listed = set(desc["auto"])
-    known_files = set()
-    known_species = set()
+    """From the roles of the listed files: ({species name: list of acceptable inner dicts}, explicitly given species,
+    {species name: {'tops': set, 'coords': set}} for species whose candidates are ambiguous).
+    A species is ambiguous when a role has more than one listed candidate (second end topology / end coordinates,
+    the same file listed under two spellings, a second start topology): then only determinism and membership are
+    demanded, not a particular winner."""
+    byname = {f["name"]: f for f in desc["files"]}
+    known_real = set()
     for k in known:
-        known_files |= {os.path.basename(x) for x in k}
-    exp = {}
+        known_real |= {os.path.realpath(x) for x in k}
+    entries = []
+    for e in dict.fromkeys(desc["auto"]):
+        f = byname.get(entry_name(e))
+        if f is not None and os.path.realpath(os.path.join(d, f["name"])) not in known_real:
+            entries.append((spell(d, e), f))
+    all_coords = {p for p, f in entries if f["kind"] in ("coor", "ref")}
+    exp, known_species, ambiguous = {}, set(), {}
     for name in desc["in_system"]:
         sp = species_of(desc, name)
-        roles = {}
-        for f in desc["files"]:
-            if f["name"] not in listed or f["name"] in known_files:
-                continue
-            if f["kind"] == "top" and f["mol"] == name:
-                roles["cg" if f["res"] == "cg" else "aa_top"] = os.path.join(d, f["name"])
-            if f["kind"] == "coor" and f["mols"] == [[name, "aa"]]:
-                roles.setdefault("aa_coor_all", []).append(os.path.join(d, f["name"]))
-                roles["aa_coor"] = roles["aa_coor_all"][0]
-        if any(os.path.basename(k[0]) in [f["name"] for f in desc["files"] if f["kind"] == "top" and f.get("mol") == name]
-               for k in known):
+        if any(os.path.realpath(os.path.join(d, f["name"])) in {os.path.realpath(k[0]) for k in known}
+               for f in desc["files"] if f["kind"] == "top" and f.get("mol") == name):
             known_species.add(name)
             continue      # explicitly given: must not be re-added
+        cg = [p for p, f in entries if f["kind"] == "top" and f["mol"] == name and f["res"] == "cg"]
+        aa = [p for p, f in entries if f["kind"] == "top" and f["mol"] == name and f["res"] == "aa"]
+        co = [p for p, f in entries if f["kind"] in ("coor", "ref") and
+              sum(1 for m in coor_content(desc, f) if m[0] == name and (m[1] == "aa" or sp["same_sig"])) == 1]
+        if len(cg) > 1 or len(aa) > 1 or len(co) > 1:
+            if cg or (sp["same_sig"] and aa):
+                ambiguous[name] = {"tops": set(cg + aa), "coords": all_coords}
+            continue
         opts = []
         if sp["same_sig"]:
-            tops = [roles[r] for r in ("cg", "aa_top") if r in roles]
+            tops = cg + aa
             if len(tops) == 2:
                 for a, b in ((tops[0], tops[1]), (tops[1], tops[0])):
                     o = {"top_CG": a, "top_AA": b}
-                    if "aa_coor" in roles:
-                        o["coor_AA"] = roles["aa_coor"]
+                    if co:
+                        o["coor_AA"] = co[0]
                     opts.append(o)
             elif len(tops) == 1:
                 opts.append({"top_CG": tops[0]})
-        elif "cg" in roles:
-            o = {"top_CG": roles["cg"]}
-            if "aa_top" in roles:
-                o["top_AA"] = roles["aa_top"]
-                if "aa_coor" in roles:
-                    o["coor_AA"] = roles["aa_coor"]
+        elif cg:
+            o = {"top_CG": cg[0]}
+            if aa:
+                o["top_AA"] = aa[0]
+                if co:
+                    o["coor_AA"] = co[0]
             opts.append(o)
-        # several coordinate candidates: any of them is acceptable
-        more = []
-        for o in opts:
-            for c in roles.get("aa_coor_all", [])[1:]:
-                if "coor_AA" in o:
-                    more.append(dict(o, coor_AA=c))
-        opts += more
         if opts:
             exp[name] = opts
-    return exp, known_species
+    return exp, known_species, ambiguous
 
 
 # =================================================================== implementation drivers
@@ -382,7 +481,7 @@ def impl_classify(files):
     return sorted(set(t)), sorted(set(c))
 
 
-def impl_sort(ref, files, known, order=None):
+def impl_sort(ref, files, known, order=None, cwd=None):
     """run sort_molecules; `order` (a list of file names) forces the iteration order of the two candidate sets.
     Returns ('ok', [(name, innerdict)...]) | ('oserror', msg) | ('exc', class, msg)"""
     from gaddlemaps import _cli
@@ -396,7 +495,10 @@ def impl_sort(ref, files, known, order=None):
             t, c = real(fs)
             return (sorted(set(t), key=lambda x: rank.get(x, 10 ** 6)), sorted(set(c), key=lambda x: rank.get(x, 10 ** 6)))
         _cli.classify_files = fake
+    oldcwd = os.getcwd()
     try:
+        if cwd:
+            os.chdir(cwd)
         with warnings.catch_warnings():
             warnings.simplefilter("ignore")
             with _quiet():
@@ -407,6 +509,7 @@ def impl_sort(ref, files, known, order=None):
     except Exception as e:      # noqa: any other class is an observation too
         return ("exc", type(e).__name__, str(e)[:200])
     finally:
+        os.chdir(oldcwd)
         _cli.classify_files = real
 
 
@@ -433,7 +536,10 @@ warnings.filterwarnings("ignore")
 from gaddlemaps import _cli
 jobs = json.load(open(sys.argv[1]))
 out = []
+import os
+home = os.getcwd()
 for j in jobs:
+    os.chdir(j.get("cwd") or home)
     try:
         with contextlib.redirect_stdout(io.StringIO()):
             r = _cli.sort_molecules(j["ref"], j["files"], j["known"])
@@ -574,10 +680,10 @@ def library_workflow(ref, triples, scale, out, seed, steps, cwd=None):
 def oracle_discovery(desc, d, known, observations):
     """observations: list of (label, obs).  Returns list of failed clauses."""
     bad = []
-    exp, known_species = expected_discovery(desc, d, known)
+    exp, known_species, ambiguous = expected_discovery(desc, d, known)
     known_files = set()
     for k in known:
-        known_files |= set(k)
+        known_files |= {os.path.realpath(x) for x in k}
     first = None
     for label, obs in observations:
         if obs[0] != "ok":
@@ -590,7 +696,7 @@ def oracle_discovery(desc, d, known, observations):
             bad.append("result depends on the order/hash seed: %s gives %s, %s gives %s" % (first[0], first[1], label, got))
         for n, v in got.items():
             for key, fn in v.items():
-                if fn in known_files:
+                if os.path.realpath(os.path.join(d, fn)) in known_files:
                     bad.append("%s: file %s of an explicitly given species re-added under %s" % (label, fn, n))
             if n in known_species:
                 bad.append("%s: explicitly given species %s re-added" % (label, n))
@@ -599,8 +705,17 @@ def oracle_discovery(desc, d, known, observations):
                 bad.append("%s: species %s not discovered" % (label, n))
             elif got[n] not in opts:
                 bad.append("%s: species %s assigned %s, its files are %s" % (label, n, got[n], opts[0]))
+        for n, amb in ambiguous.items():
+            # several candidates for one role: which one wins is not prescribed, only that they are this species' files
+            if n not in got:
+                bad.append("%s: species %s not discovered" % (label, n))
+                continue
+            v = got[n]
+            if v.get("top_CG") not in amb["tops"] or ("top_AA" in v and v["top_AA"] not in amb["tops"]) or \
+                    ("coor_AA" in v and v["coor_AA"] not in amb["coords"]) or v.get("top_AA") == v.get("top_CG"):
+                bad.append("%s: species %s assigned %s, its candidate topologies are %s" % (label, n, v, sorted(amb["tops"])))
         for n in got:
-            if n not in exp and n not in known_species:
+            if n not in exp and n not in known_species and n not in ambiguous:
                 bad.append("%s: unexpected species %s: %s" % (label, n, got[n]))
         if len(bad) > 6:
             break
@@ -608,10 +723,11 @@ def oracle_discovery(desc, d, known, observations):
 
 
 def expected_main(desc, d, mol, use_auto, exclude):
-    """(explicit list, set of acceptable discovered triples as list of option-lists)"""
+    """(list of acceptable triple lists, one per species that must be added; candidate sets of ambiguous species that
+    may be added at most once)"""
     if not use_auto:
-        return []
-    exp, _ = expected_discovery(desc, d, mol)
+        return [], []
+    exp, _, ambiguous = expected_discovery(desc, d, mol)
     out = []
     for n, opts in exp.items():
         if exclude is not None and n in exclude:
@@ -619,7 +735,8 @@ def expected_main(desc, d, mol, use_auto, exclude):
         full = [o for o in opts if len(o) == 3]
         if full:
             out.append([(o["top_CG"], o["coor_AA"], o["top_AA"]) for o in full])
-    return out
+    amb = [a for n, a in ambiguous.items() if not (exclude is not None and n in exclude)]
+    return out, amb
 
 
 def oracle_main_record(desc, d, mol, use_auto, exclude, outfile, scale, obs):
@@ -631,10 +748,18 @@ def oracle_main_record(desc, d, mol, use_auto, exclude, outfile, scale, obs):
     if got[:len(mol)] != [tuple(m) for m in mol]:
         bad.append("explicit triples changed: %s" % (got[:len(mol)],))
     rest = got[len(mol):]
-    exp = expected_main(desc, d, mol, use_auto, exclude)
+    exp, amb = expected_main(desc, d, mol, use_auto, exclude)
+    hits = [0] * len(amb)
     for t in rest:
-        if not any(t in opts for opts in exp):
+        if any(t in opts for opts in exp):
+            continue
+        k = [i for i, a in enumerate(amb) if t[0] in a["tops"] and t[2] in a["tops"] and t[1] in a["coords"]]
+        if k:
+            hits[k[0]] += 1
+        else:
             bad.append("triple %s added; expected one of %s" % (t, exp))
+    if any(h > 1 for h in hits):
+        bad.append("a species with several candidates was added more than once: %s" % (rest,))
     for opts in exp:
         if sum(1 for t in rest if t in opts) != 1:
             bad.append("species with files %s not added exactly once" % (opts[0],))
@@ -721,8 +846,9 @@ def discovery_case(ctx, W, desc, d, rs, hash_obs=None, tag="gen"):
     """run sort_molecules under permutations (+ given hash-seed observations), add one K case, run S.
     Returns the list of failed clauses of the oracle."""
     ref = os.path.join(d, desc["ref"])
-    files = [os.path.join(d, f) for f in desc["auto"]]
+    files = [spell(d, e) for e in desc["auto"]]
     known = [[os.path.join(d, x) for x in k] for k in desc["known"]]
+    cwd = d if needs_cwd(desc) else None
     base = list(dict.fromkeys(files))
     perms, exhaustive = perms_for(ctx, rs, base)
     groups = {}
@@ -731,16 +857,17 @@ def discovery_case(ctx, W, desc, d, rs, hash_obs=None, tag="gen"):
         order = [base[i] for i in p]
         # the listing keeps its duplicates; the forced set order follows the permutation
         listing = order + [f for f in files if files.count(f) > 1 and rs.randint(0, 2)]
-        obs = impl_sort(ref, listing, known, order=order)
+        obs = impl_sort(ref, listing, known, order=order, cwd=cwd)
         c = canon(obs)
         groups.setdefault(c, []).append(p)
-        observations.append(("order %s" % [os.path.basename(x) for x in order], obs))
+        observations.append(("order %s" % [short(d, x) for x in order], obs))
     ident = list(range(len(base)))
     for seed, obs in (hash_obs or []):
         c = canon(obs)
         groups.setdefault(c, []).append(ident)
         observations.append(("PYTHONHASHSEED=%s" % seed, obs))
-    discoverable = bool(expected_discovery(desc, d, known)[0])
+    e3 = expected_discovery(desc, d, known)
+    discoverable = bool(e3[0]) or bool(e3[2])
     ctx.count((json.dumps(desc, sort_keys=True), len(perms)), discoverable)
     K = ctx.cov["K"]
     K["sort_runs"] = K.get("sort_runs", 0) + len(observations)
@@ -993,12 +1120,27 @@ def corpus_descs():
                     {"name": "empty.itp", "kind": "raw", "text": ""}, {"name": "system_cg.gro", "kind": "ref"}],
           "ref": "system_cg.gro", "auto": ["martini.itp", "MOLA_CG.itp", "MOLA_AA.itp", "MOLA_AA.gro", "empty.itp"],
           "known": [], "exclude": None, "geom_seed": 3, "profile": "corpus-F3"}
-    return [d11, f1, f3]
+    # layout of the sub-folder project (cg/ aa/ old/ with equal base names, a superseded end-resolution version of one
+    # species under the same molecule name): ordering by base name only leaves the ties to the set order
+    m1 = {"name": "M1", "cg": [["M1", ["Q"]]], "aa": [["M1", ["B", "F1", "F2"]]], "same_sig": False}
+    sub = {"species": [mola, m1], "in_system": ["MOLA", "M1"], "blocks": [["M1", 3], ["MOLA", 3]],
+           "files": [top("cg/MOLA.itp", "MOLA", "cg"), top("cg/M1.itp", "M1", "cg"), top("aa/MOLA.itp", "MOLA", "aa"),
+                     coor("aa/MOLA.gro", "MOLA"), top("aa/M1.itp", "M1", "aa"), coor("aa/M1.gro", "M1"),
+                     top("old/MOLA.itp", "MOLA", "aa"), coor("old/MOLA.gro", "MOLA"),
+                     {"name": "ff/forcefield.itp", "kind": "raw", "text": "[ defaults ]\n; nbfunc comb-rule\n  1  2\n"},
+                     {"name": "notes.txt", "kind": "raw", "text": "not a simulation file\n"},
+                     {"name": "system.gro", "kind": "ref"}],
+           "ref": "system.gro",
+           "auto": ["cg/MOLA.itp", "cg/M1.itp", "aa/MOLA.itp", "aa/MOLA.gro", "aa/M1.itp", "aa/M1.gro", "old/MOLA.itp",
+                    "old/MOLA.gro", "ff/forcefield.itp", "notes.txt"],
+           "known": [], "exclude": None, "geom_seed": 4, "profile": "corpus-subfolders"}
+    return [d11, f1, f3, sub]
 
 
 def hash_jobs(items):
-    return [{"ref": os.path.join(d, desc["ref"]), "files": [os.path.join(d, f) for f in desc["auto"]],
-             "known": [[os.path.join(d, x) for x in k] for k in desc["known"]]} for desc, d in items]
+    return [{"ref": os.path.join(d, desc["ref"]), "files": [spell(d, e) for e in desc["auto"]],
+             "known": [[os.path.join(d, x) for x in k] for k in desc["known"]],
+             "cwd": d if needs_cwd(desc) else None} for desc, d in items]
 
 
 def corpus(ctx):
@@ -1036,7 +1178,8 @@ def correspondence(ctx):
                               {"kind": "classify", "files": files}, key="classify")
     hist["classify"] = ncl
     # ---- generated directories: discovery under permutations and hash seeds
-    profiles = ["small"] * ctx.n(20, 80) + ["samesig"] * ctx.n(12, 50) + ["full"] * ctx.n(28, 130)
+    profiles = ["small"] * ctx.n(20, 80) + ["samesig"] * ctx.n(12, 50) + ["full"] * ctx.n(28, 130) + \
+               ["ambig"] * ctx.n(40, 200)
     items = []
     for i, prof in enumerate(profiles):
         desc = make_descriptor(rs, prof)
@@ -1058,8 +1201,9 @@ def correspondence(ctx):
                 break
     # ---- main(): argument handling (auto_map recorded)
     nmain = ctx.n(160, 800)
+    main_pool = [it for it in items if it[0]["profile"] != "ambig"]
     for k in range(nmain):
-        desc, d = items[int(rs.randint(0, len(items)))]
+        desc, d = main_pool[int(rs.randint(0, len(main_pool)))]
         main_record_case(ctx, W, desc, d, rs)
     hist["main_record"] = nmain
     # ---- real runs: command line vs library workflow
@@ -1134,11 +1278,11 @@ def oracle(ctx, scale):
     n = ctx.n(15, 60) * scale
     fails = 0
     for i in range(n):
-        desc = make_descriptor(rs, ["small", "samesig", "full"][i % 3])
+        desc = make_descriptor(rs, ["small", "samesig", "full", "ambig"][i % 4])
         d = materialize(desc, os.path.join(root(), "s%d_%d" % (scale, i)))
         if discovery_case(ctx, W, desc, d, rs):
             fails += 1
-        if main_record_case(ctx, W, desc, d, rs):
+        if desc["profile"] != "ambig" and main_record_case(ctx, W, desc, d, rs):
             fails += 1
         shutil.rmtree(d, ignore_errors=True)
     S["enlarged_dirs_x%d" % scale] = n
